@@ -194,7 +194,11 @@ Definition targets_of (k : xclass) (q : name) : list ftarget :=
 Definition decl_closed (p : program) (k : xclass) (x : xdecl) : bool :=
   let d := get_type (p_schema p) (xd_type x) in
   let ts := targets_of k (xd_name x) in
-  negb (match ts with [] => true | _ => false end) &&
+  (* no typed field for the name: a wildcard field must take it (generic AnyElement binding: lossless, untyped) *)
+  (match ts with
+   | [] => existsb (fun f => match xf_wild f with Some c => fns_allows c (ns_of (xd_name x)) | None => false end)
+                   (xm_fields (xk_meta k))
+   | _ => true end) &&
   forallb (fun tg =>
     match is_simple_type d, tg with
     | Some st, TPrim f => type_compat st f
